@@ -71,7 +71,13 @@ Proof.
 Qed.
 
 Lemma Tr_fire_ext w e : Tr w -> Tr (fire_ext w e).
-Proof. intros H. unfold fire_ext. apply Tr_mark_done. apply (Tr_frame w); try reflexivity; try (cbn; lia); try exact H. Qed.
+Proof.
+  intros H. unfold fire_ext.
+  assert (H0 : Tr (set_scopes w (w_scopes w) (w_seq w) None)) by (apply (Tr_frame w); try reflexivity; try (cbn; lia); exact H).
+  destruct e; try (apply Tr_mark_done; exact H0).
+  destruct (copy_err _ 0%nat); [exact H0|].
+  apply Tr_mark_done. apply (Tr_frame (set_scopes w (w_scopes w) (w_seq w) None)); try reflexivity; try (cbn; lia); exact H0.
+Qed.
 
 Lemma Tr_set_now w t : Tr w -> Tr (set_now w (Z.max (w_now w) t)).
 Proof. intros H. apply (Tr_frame w); try reflexivity; try (cbn; lia); try exact H. Qed.
